@@ -343,7 +343,11 @@ def _mk_pipe(shape, w, cut=False):
             # a complete block with every channel in its place (never a block holding only the channels read so far)
             c.raises("StopIteration", f"{mn_pre} == 0 or " + " or ".join(f"streams[{k}].stream.may_fail" for k in range(n)))
         else:
-            c.raises("StopIteration", f"{mn_pre} == 0")
+            # the data END exactly when some stream has no whole frame left (iff: a block is produced whenever every stream still has one)
+            c.raises("StopIteration", f"{mn_pre} == 0", iff=True)
+            for k in range(n):
+                c.ensures(f"streams[{k}].stream.cur == old(streams[{k}].stream.cur) + imax(0, imin(nf() * {shape[k] * w}, "
+                          f"len(streams[{k}].stream.content) - old(streams[{k}].stream.cur)))", f"stream-{k}-cursor-moves-on-by-the-bytes-read")
         c.ensures(f"len(result) == {mx} * {C * w}", "as-many-frames-as-the-longest-stream-in-this-block")
         ch0 = 0
         for k in range(n):
@@ -362,3 +366,132 @@ def _mk_pipe(shape, w, cut=False):
 for (_sh, _w) in PIPE_SHAPES:
     _mk_pipe(_sh, _w)
 _mk_pipe((1, 1), 2, cut=True)
+
+
+# ================================================================== the whole L/R export: concatenation of the pipeline blocks (C12, C05)
+# Two mono 16-bit streams of EQUAL length (the statement's "pairs of equal length"), either byte order each: draining the transcoder that
+# make_transcoder builds yields exactly L/2 stereo frames, and frame f holds sample f of the first stream in channel 0 and sample f of the
+# second in channel 1 (bytes reversed exactly for a big-endian source) - every frame of both, in order, none lost at a block boundary.
+# Modular: the loop is proved against the CONTRACT of PipelineTranscoder.__next__ (`#block[1x1,w=2]`), which is the postcondition the block
+# lemma `lemma:pipeline_block[1x1,w=2]` discharges for the real functions; make_transcoder itself is inlined.
+_NF = "imax(1, _DEFAULT_BUFFER_SIZE // 2)"
+
+
+def _block_clauses(DS):
+    """The contract of one pipeline block for two mono 16-bit streams, as clause texts over the stream list `DS` - used TWICE: as the callee
+    contract of the drain proof (DS = self.data_streams) and as the postcondition of a lemma over the real functions (DS = streams), so
+    the two cannot drift apart."""
+    S = lambda k: f"{DS}[{k}].stream"
+    FR = lambda k, cur: f"(imax(0, imin({_NF} * 2, len({S(k)}.content) - {cur})) // 2)"
+    old0, old1 = f"old({S(0)}.cur)", f"old({S(1)}.cur)"
+    stop_when = f"imin({FR(0, S(0) + '.cur')}, {FR(1, S(1) + '.cur')}) == 0"
+    ens = [("block-length", f"len(result) == imax({FR(0, old0)}, {FR(1, old1)}) * 4")]
+    for k in (0, 1):
+        ens.append((f"cursor-{k}", f"{S(k)}.cur == old({S(k)}.cur) + imax(0, imin({_NF} * 2, len({S(k)}.content) - old({S(k)}.cur)))"))
+        for j in (0, 1):
+            ens.append((f"channel-{k}-byte-{j}", f"forall(0, imin({FR(0, old0)}, {FR(1, old1)}), lambda f: result[(f * 2 + {k}) * 2 + {j}] == "
+                        f"{S(k)}.content[old({S(k)}.cur) + f * 2 + ite({DS}[{k}].encoding.endianess == 1, {j}, {1 - j})])"))
+    return stop_when, ens, [f"{S(0)}.cur", f"{S(1)}.cur"]
+
+
+def _block_requires(DS):
+    return [(f"stream-{k}-well-formed", f"({DS}[{k}].encoding.endianess == 1 or {DS}[{k}].encoding.endianess == 2) and {DS}[{k}].stream.cur >= 0 "
+             f"and not {DS}[{k}].stream.may_fail") for k in (0, 1)]
+
+
+@contract(T + "PipelineTranscoder.__next__#block[1x1,w=2]", abstract=True, assumed=False,
+          note="one pipeline block of two mono 16-bit streams; discharged for the real functions by lemma:pipeline_block_contract[1x1,w=2] (same clause texts)")
+def _pipe_next_block(c):
+    c.returns(("bytes", "int"))
+    c.binds_receiver = True
+    stop_when, ens, mods = _block_clauses("self.data_streams")
+    for lbl, text in _block_requires("self.data_streams"):
+        c.requires(text, lbl)
+    c.raises("StopIteration", stop_when, iff=True)
+    for lbl, text in ens:
+        c.ensures(text, lbl)
+    c.modifies(*mods)
+
+
+def _mk_block_contract_lemma():
+    def ds():
+        enc = ("rec", "StreamEncoding", {"endianess": "int", "sample_width": ("const", 2), "num_interleaved_channels": ("const", 1), "is_signed": ("const", True)})
+        return ("obj", "smpl_extract.data_streams:DataStream", {"stream": VIEW, "encoding": enc, "frame_size": ("const", 2)})
+
+    @contract("lemma:pipeline_block_contract[1x1,w=2]", props=["C12", "C05", "C01"], lemma_module="smpl_extract.transcoder",
+              lemma_deps=[T + "make_transcoder", T + "PipelineTranscoder.__next__", T + "decode_frame", T + "encode_frame", T + "pad_channels",
+                          T + "swap_endianess", T + "swap_endianess_multi"],
+              lemma_src=("def block(streams, dest):\n"
+                         "    t = make_transcoder(streams, dest)\n"
+                         "    return t.__next__()\n"))
+    def _bc(c):
+        c.param("streams", ("clist", [ds(), ds()]))
+        c.param("dest", ("rec", "StreamEncoding", {"endianess": ("const", 1), "sample_width": ("const", 2), "num_interleaved_channels": ("const", 2), "is_signed": ("const", True)}))
+        c.bind["system_byte_order"] = ("int", "system_byte_order == 1 or system_byte_order == 2")
+        c.bind["_DEFAULT_BUFFER_SIZE"] = ("int", "_DEFAULT_BUFFER_SIZE >= 1")
+        for lbl, text in _block_requires("streams"):
+            c.requires(text, lbl)
+        c.returns(("bytes", "int"))
+        stop_when, ens, mods = _block_clauses("streams")
+        c.raises("StopIteration", stop_when, iff=True)
+        for lbl, text in ens:
+            c.ensures(text, lbl)
+        c.modifies(*mods)
+    return _bc
+
+
+_mk_block_contract_lemma()
+
+
+def _mk_pipe_drain():
+    w = 2
+
+    def ds():
+        enc = ("rec", "StreamEncoding", {"endianess": "int", "sample_width": ("const", w), "num_interleaved_channels": ("const", 1), "is_signed": ("const", True)})
+        return ("obj", "smpl_extract.data_streams:DataStream", {"stream": VIEW, "encoding": enc, "frame_size": ("const", w)})
+
+    @contract("lemma:pipeline_concatenation[1x1,w=2,equal-lengths]", props=["C12", "C05", "C01"], lemma_module="smpl_extract.transcoder",
+              lemma_deps=[T + "make_transcoder", T + "PipelineTranscoder.__next__"],
+              lemma_src=("def drain(streams, dest):\n"
+                         "    t = make_transcoder(streams, dest)\n"
+                         "    out = bytes()\n"
+                         "    while True:\n"
+                         "        try:\n"
+                         "            blk = t.__next__()\n"
+                         "        except StopIteration:\n"
+                         "            break\n"
+                         "        out += blk\n"
+                         "    return out\n"))
+    def _pd(c):
+        c.param("streams", ("clist", [ds(), ds()]))
+        c.param("dest", ("rec", "StreamEncoding", {"endianess": ("const", 1), "sample_width": ("const", w), "num_interleaved_channels": ("const", 2), "is_signed": ("const", True)}))
+        c.bind["system_byte_order"] = ("int", "system_byte_order == 1 or system_byte_order == 2")
+        c.bind["_DEFAULT_BUFFER_SIZE"] = ("int", "_DEFAULT_BUFFER_SIZE >= 1")
+        c.use = {T + "PipelineTranscoder.__next__": T + "PipelineTranscoder.__next__#block[1x1,w=2]"}
+        c.define("L", [], "len(streams[0].stream.content)")
+        for k in (0, 1):
+            c.requires(f"(streams[{k}].encoding.endianess == 1 or streams[{k}].encoding.endianess == 2) and streams[{k}].stream.cur == 0 and not streams[{k}].stream.may_fail",
+                       f"stream-{k}-well-formed-rewound-complete")
+        c.requires("len(streams[1].stream.content) == L() and L() % 2 == 0", "equal-lengths-whole-samples")
+        c.returns(("bytes", "int"))
+        c.ensures("len(result) == 2 * L()", "every-frame-of-both-streams")
+        for k in (0, 1):
+            for j in (0, 1):
+                c.ensures(f"forall(0, L() // 2, lambda f: result[(f * 2 + {k}) * 2 + {j}] == "
+                          f"streams[{k}].stream.content[f * 2 + ite(streams[{k}].encoding.endianess == 1, {j}, {1 - j})])",
+                          f"frame-f-channel-{k}-byte-{j}-is-sample-f-of-stream-{k}")
+        lp = c.loop(0)
+        inv = ["streams[0].stream.cur == streams[1].stream.cur and 0 <= streams[0].stream.cur and streams[0].stream.cur <= L() and streams[0].stream.cur % 2 == 0",
+               "len(out) == 2 * streams[0].stream.cur",
+               "isinstance(t, PipelineTranscoder) and t.data_streams is streams"]
+        for k in (0, 1):
+            for j in (0, 1):
+                inv.append(f"forall(0, streams[0].stream.cur // 2, lambda f: out[(f * 2 + {k}) * 2 + {j}] == "
+                           f"streams[{k}].stream.content[f * 2 + ite(streams[{k}].encoding.endianess == 1, {j}, {1 - j})])")
+        lp.invariant(*inv)
+        lp.measure("L() - streams[0].stream.cur")
+        lp.modifies("streams[0].stream.cur").modifies("streams[1].stream.cur")
+    return _pd
+
+
+_mk_pipe_drain()
